@@ -26,6 +26,7 @@ type tsnInfo struct {
 	fwd    bool // covered by an emitted FORWARD-TSN
 	msg    *msgRec
 	order  int // order of first emission
+	firstSeq int64
 }
 
 type heldPoint struct {
@@ -339,8 +340,10 @@ func (m *wireMon) onEmit(p *wirePacket) {
 		if ti == nil {
 			ti = &tsnInfo{tsn: c.tsn, sid: c.sid, ssn: c.ssn, mid: c.mid, fsn: c.fsn, ppi: c.ppi, b: c.begin, e: c.end, u: c.unordered, idata: c.typ == wtIDATA, n: len(c.userData), order: sm.nFirst}
 			sm.nFirst++
+			ti.firstSeq = p.seq
 			m.newTSN(X, p, c, ti)
 			sm.sent[c.tsn] = ti
+			m.checkFragmentOrder(X, c, ti)
 			if !sm.haveHigh || wSNA32GT(c.tsn, sm.highest) {
 				sm.highest, sm.haveHigh = c.tsn, true
 			}
